@@ -153,6 +153,14 @@ func build(root entry, es []entry) []byte {
 			e.Filename(x.Name)
 			e.Entry(0120777, 0, 0, 1000000000)
 			e.Symlink(x.Target)
+		case "filex": // entries without a filename element (only the first entry of an archive has none)
+			e.Entry(0100644, 0, 0, 1000000000)
+			e.Payload([]byte("written by the archive"))
+		case "dirx":
+			e.Entry(0040755, 0, 0, 1000000000)
+		case "linknx":
+			e.Entry(0120777, 0, 0, 1000000000)
+			e.Symlink(x.Target)
 		case "linkx": // a symlink entry that carries extended attributes
 			e.Filename(x.Name)
 			e.Entry(0120777, 0, 0, 1000000000)
@@ -246,6 +254,39 @@ func main() {
 			rt.Target = []string{"../out", "..", "OUT/secret"}[r.Intn(3)]
 		}
 		archives = append(archives, arch{rt, r.Intn(2) == 0, es, false})
+	}
+	// a third family: entries that name the directory they are listed in (or have no name at all), used to swap the open
+	// directory for a symlink to the outside while the archive keeps listing entries in it
+	{
+		selfNames := []string{"/", ".", "", "./", "a/..", "//", "/."}
+		for _, inside := range []bool{false, true} {
+			for _, rootAbsent := range []bool{false, true} {
+				var prefix []entry
+				if inside {
+					prefix = []entry{{"a", "dir", ""}, {"g", "file", ""}}
+				}
+				for _, target := range []string{"OUT", "../out", "../../out"} {
+					for _, sn := range selfNames {
+						for _, first := range []string{"file", "none", "link"} {
+							es := append([]entry{}, prefix...)
+							if first != "none" {
+								es = append(es, entry{sn, first, target})
+							}
+							es = append(es, entry{sn, "link", target}, entry{"f", "file", ""}, entry{"secret", "file", ""})
+							archives = append(archives, arch{dirRoot, rootAbsent, es, false})
+						}
+					}
+					for _, first := range []string{"filex", "none", "dirx"} {
+						es := append([]entry{}, prefix...)
+						if first != "none" {
+							es = append(es, entry{"", first, ""})
+						}
+						es = append(es, entry{"", "linknx", target}, entry{"f", "file", ""}, entry{"secret", "file", ""})
+						archives = append(archives, arch{dirRoot, rootAbsent, es, false})
+					}
+				}
+			}
+		}
 	}
 	count := 0
 	for ai, a := range archives {
